@@ -216,6 +216,8 @@ def run(ctx):
                 ctx.report("%s; base %r, re-ordered %r" % (what, g[0], t), "c13or:" + t, {"base": g[0], "respelled": t, "base_results": base, "respelled_results": r}, case={"schema": t})
     ctx.extra["or_rule_set_orderings"] = sum(len(g) for g in ogroups)
     UQ.check_unquote(ctx, st, quick, "c13")
+    import schema_scan_cases
+    schema_scan_cases.stream(ctx, st, "s", quick, "c13")
     ctx.extra["schemas"] = len(groups)
     ctx.extra["spellings"] = len(lines)
     ctx.samples.append({"base": json.loads(lines[0])["schema"], "respelled": json.loads(lines[2])["schema"]})
